@@ -93,6 +93,7 @@ type site struct {
 	Header    bool       `json:"header"`
 	Templates bool       `json:"templates"`
 	ReqID     bool       `json:"request_id"`
+	Rewrite   bool       `json:"rewrite,omitempty"` // two internal rewrites: into and out of /p/skip (a common except entry)
 	Layout    string     `json:"layout"`
 	Logs      []*logSpec `json:"logs"`
 }
@@ -137,6 +138,10 @@ func (s *site) block(port int, root string) string {
 	}
 	if s.ReqID {
 		b.WriteString("\trequest_id\n")
+	}
+	if s.Rewrite {
+		b.WriteString("\trewrite {\n\t\tr ^/([a-d])/p/rwin/(.*)$\n\t\tto /{1}/p/skip/{2}\n\t}\n")
+		b.WriteString("\trewrite {\n\t\tr ^/([a-d])/p/skip/rwout/(.*)$\n\t\tto /{1}/p/moved-{2}\n\t}\n")
 	}
 	for _, t := range tops {
 		fmt.Fprintf(&b, "\tbasicauth %s/auth %s %s\n", t, authUser, authPass)
@@ -301,6 +306,7 @@ func genSites(c *lib.Ctx, round, n int, logDir string) []*site {
 		}
 		s.Gzip, s.Errors, s.Header, s.Templates = mask&1 != 0, mask&2 != 0, mask&4 != 0, mask&8 != 0
 		s.ReqID = r.Chance(1, 3)
+		s.Rewrite = i == 1 || r.Chance(1, 3)
 		var scopes []string
 		switch {
 		case i == 0:
@@ -401,6 +407,7 @@ type reqRec struct {
 	HostileN      int // request-controlled values that contain a brace
 
 	Path        string
+	RwPath      string // the path the inner handlers see, when the site rewrites this request ("" otherwise)
 	RawQuery    string
 	NormURI     string
 	Query       map[string]string
@@ -647,7 +654,12 @@ func outcomes(seed uint64) []outcome {
 	return out
 }
 
-var probeLeaves = []string{"/p/x", "/p/x", "/p/x.html", "/p/y.txt", "/p/skip/x", "/p/skip/x.html", "/p/skip/deep/er", "/p/h/@", "/p/h/@.html", "/p/target"}
+var probeLeaves = []string{"/p/x", "/p/x", "/p/x.html", "/p/y.txt", "/p/skip/x", "/p/skip/x.html", "/p/skip/deep/er", "/p/h/@", "/p/h/@.html", "/p/target", "/p/rwin/doc", "/p/skip/rwout/doc"}
+
+var (
+	rwIn  = regexp.MustCompile(`^/([a-d])/p/rwin/(.*)$`)
+	rwOut = regexp.MustCompile(`^/([a-d])/p/skip/rwout/(.*)$`)
+)
 
 // hostile path segments (the decoded form is what {path} must show)
 var hostileSeg = []string{"%7Bstatus%7D", "{size}", "%7B%3EX-Hostile%7D", "{}", "%7D%7B", "a%7Bstatus%7Db", "%7B%7Bsize%7D%7D", "%7B%3Frid%7D", "plain"}
@@ -734,6 +746,13 @@ func (g *gen) make(r *lib.Rng, s *site, o *outcome) *reqRec {
 		panic("c20: generated an unparsable target " + q.Target)
 	}
 	q.Path, q.RawQuery, q.NormURI = u.Path, u.RawQuery, u.RequestURI()
+	if s != nil && s.Rewrite && q.site != nil {
+		if m := rwIn.FindStringSubmatch(q.Path); m != nil {
+			q.RwPath = "/" + m[1] + "/p/skip/" + m[2]
+		} else if m := rwOut.FindStringSubmatch(q.Path); m != nil {
+			q.RwPath = "/" + m[1] + "/p/moved-" + m[2]
+		}
+	}
 	if strings.ContainsAny(q.Path, "{}") {
 		q.HostileN++
 	}
